@@ -5,7 +5,7 @@
 #pragma once
 #ifdef VERIF_NATIVE
 extern "C" int __exc_pending;
-#define KFN(ret, name, params, ...) extern "C" ret name params { try { __VA_ARGS__ } catch (...) { __exc_pending = 1; } return ret(); }
+#define KFN(ret, name, params, ...) extern "C" ret name params { try { __VA_ARGS__ } catch (...) { __exc_pending = 1; } typedef ret R_; return R_(); }
 #define KVOID(name, params, ...) extern "C" void name params { try { __VA_ARGS__ } catch (...) { __exc_pending = 1; } }
 #else
 #define KFN(ret, name, params, ...) extern "C" __attribute__((noinline)) ret name params { __VA_ARGS__ }
